@@ -41,21 +41,45 @@ def arr(spec):
     return a
 
 
-kern = []
-for c in job.get("kernel", []):
-    table = arr(c["table"])
-    if c["beta_kind"] == "vector":
-        beta = np.array(c["beta"], dtype=np.float64)
-    elif c["beta_kind"] == "int":
-        beta = int(c["beta"])
-    else:
-        beta = float(c["beta"])
-    try:
-        labels, cost = cla.assign_point_cluster_labels(table, beta)
-        kern.append({"labels": [int(x) for x in labels], "cost": float(cost).hex()})
-    except Exception as e:
-        kern.append({"error": f"{type(e).__name__}: {e}"[:200]})
-out["kernel"] = kern
+def do_runs():
+    runs = []
+    for cfg in job.get("runs", []):
+        series = tu.config_data(cfg)
+        tu.seed_all(cfg["seed"])
+        try:
+            r = tu.run_joint(series, **tu.config_kwargs(cfg)) if cfg["joint"] else tu.run_single(series[0], **tu.config_kwargs(cfg))
+            lab = r.point_labels
+            runs.append({"labels": [[int(x) for x in l] for l in lab] if cfg["joint"] else [int(x) for x in lab],
+                         "cost": float(r.label_assignment_cost).hex()})
+        except Exception as e:
+            runs.append({"error": f"{type(e).__name__}: {e}"[:200]})
+    return runs
+
+
+def run_kernel_cases():
+    kern = []
+    for c in job.get("kernel", []):
+        table = arr(c["table"])
+        if c["beta_kind"] == "vector":
+            beta = np.array(c["beta"], dtype=np.float64)
+        elif c["beta_kind"] == "int":
+            beta = int(c["beta"])
+        else:
+            beta = float(c["beta"])
+        try:
+            labels, cost = cla.assign_point_cluster_labels(table, beta)
+            kern.append({"labels": [int(x) for x in labels], "cost": float(cost).hex()})
+        except Exception as e:
+            kern.append({"error": f"{type(e).__name__}: {e}"[:200]})
+    return kern
+
+
+RUNS_FIRST = None
+if job.get("order") == "runs-first":
+    # a fresh process whose FIRST use of the kernels is a complete run (the compiled kernel's first specialisation comes
+    # from what the front end passes: e.g. an integer-typed switching cost), the direct kernel calls only afterwards
+    RUNS_FIRST = do_runs()
+out["kernel"] = run_kernel_cases()
 
 lls = []
 for c in job.get("ll", []):
@@ -74,16 +98,9 @@ for c in job.get("ll", []):
         lls.append({"error": f"{type(e).__name__}: {e}"[:200]})
 out["ll"] = lls
 
-runs = []
-for cfg in job.get("runs", []):
-    series = tu.config_data(cfg)
-    tu.seed_all(cfg["seed"])
-    try:
-        r = tu.run_joint(series, **tu.config_kwargs(cfg)) if cfg["joint"] else tu.run_single(series[0], **tu.config_kwargs(cfg))
-        lab = r.point_labels
-        runs.append({"labels": [[int(x) for x in l] for l in lab] if cfg["joint"] else [int(x) for x in lab],
-                     "cost": float(r.label_assignment_cost).hex()})
-    except Exception as e:
-        runs.append({"error": f"{type(e).__name__}: {e}"[:200]})
+runs = RUNS_FIRST if RUNS_FIRST is not None else do_runs()
 out["runs"] = runs
+# the same kernel cases AGAIN, after the complete runs (integer- and float-typed switching costs among them) have
+# been through the compiled kernels: what earlier calls left in the process must not change a later call
+out["kernel_again"] = run_kernel_cases()
 print("RESULT " + json.dumps(out))
